@@ -15,8 +15,9 @@ RULE = ("(operator among + - neg * / // % divmod, six comparisons, val(), abs) x
         "enumerated completely. Random part: Hypothesis cases over resolution 0..12, bitlength 8..32, three fields. "
         "Oracle: Fraction reference on the represented numbers (products floor(a*b/2^r) on representations, quotients "
         "floor(a*2^r/b), Python // and %, order comparisons, val() = representation/2^r); a returned value must equal "
-        "it, inside the documented no-raise domain the call must return. Non-trivial = mixed operand kinds or a "
-        "non-integer / negative operand; distinct by (op, types, values, resolution, bitlength).")
+        "it, inside the documented no-raise domain the call must return. Compositions: random trees of 2-4 fixed-point operations over mixed leaves, every "
+        "intermediate compared with the reference evaluated step by step. Non-trivial = mixed operand kinds or a "
+        "non-integer / negative operand (single operations), >= 2 completed fixed-point operations (compositions); distinct by (op, types, values, resolution, bitlength).")
 
 BIN = ["add", "sub", "mul", "truediv", "floordiv", "mod", "divmod", "lt", "le", "gt", "ge", "eq", "ne"]
 UN = ["neg", "abs", "val", "pos"]
@@ -220,7 +221,122 @@ def random_shard(seed, n_examples):
     return stats
 
 
+# ---- compositions of fixed-point operations ---------------------------------------
+
+COMP_OPS = ["add", "sub", "mul", "truediv", "floordiv", "mod", "neg"]
+
+
+def compose_case(case):
+    """case: {"cfg":..., "leaves": [(type, value)...], "nodes": [(op, i, j|None)...]} ; node k refers to
+    entries (leaves first, then earlier nodes). Returns (message or None, info)."""
+    cfg = case["cfg"]
+    r = cfg["r"]
+    S = 1 << r
+    stmts = []
+    refs = []          # (type, Fraction number) per entry
+    for t, v in case["leaves"]:
+        if t in "IBF":
+            stmts.append(["in", "priv", t, v])
+        elif t == "f":
+            stmts.append(["const", ["f", v, S]])
+        else:
+            stmts.append(["const", v])
+        refs.append((t, number(t, v, r)))
+    info = {"ops": []}
+    for op, i, j in case["nodes"]:
+        args = [i] if j is None else [i, j]
+        ts = "".join(refs[a][0] for a in args)
+        # reference on represented numbers
+        vals = []
+        for a in args:
+            t, x = refs[a]
+            vals.append(int(x * S) if t in "Ff" else int(x))
+        if "F" not in ts:
+            raise core.HarnessError("composition node without a fixed-point operand")
+        e = ref(op, ts, vals, r)
+        if e is refsem.RAISES:
+            return None, info
+        stmts.append(["op", op, args])
+        refs.append(("F", e[1]))
+        info["ops"].append(op)
+    prog = {"cfg": cfg, "stmts": [s_ for s_ in stmts if s_ is not None]}
+    # env index of each entry (skipped nodes produce no value): recompute references
+    idx, k = [], 0
+    for s_ in stmts:
+        idx.append(k)
+        if s_ is not None:
+            k += 1
+    for s_ in prog["stmts"]:
+        if s_[0] == "op":
+            s_[2] = [idx[a] for a in s_[2]]
+    m = ir.run_program(prog)
+    if m.raised is not None:
+        return None, info
+    info["completed"] = True
+    p = m.p
+    for pos, s_ in enumerate(stmts):
+        if s_ is None or s_[0] != "op":
+            continue
+        e = idx[pos]
+        if e >= len(m.vals) or m.types[e] != "F":
+            continue
+        got = m.vals[e].lc.value
+        want = refs[pos][1] * S
+        if want.denominator != 1 or (got - int(want)) % p:
+            return ("composition %r over leaves %r (resolution %d): node %d (%s) has representation %d, exact scaled-integer "
+                    "arithmetic gives %s" % (case["nodes"], case["leaves"], r, pos - len(case["leaves"]), s_[1], got, want)), info
+    return None, info
+
+
+def compose_shard(seed, n_examples):
+    stats = core.Stats()
+
+    @given(st.data())
+    def test(data):
+        draw = data.draw
+        r = draw(st.sampled_from([1, 2, 3, 4, 8]))
+        cfg = {"p": draw(st.sampled_from(sorted(REAL_FIELDS))), "b": 32, "r": r, "ignore": False}
+        leaves = []
+        for _ in range(draw(st.integers(2, 4))):
+            t = draw(st.sampled_from("FFFIif"))
+            if t in "Ff":
+                v = draw(st.one_of(st.integers(-6 * (1 << r), 6 * (1 << r)), st.integers(1, 4).map(lambda k: k * (1 << r))))
+            else:
+                v = draw(st.integers(-4, 5))
+            leaves.append((t, v))
+        if not any(t == "F" for t, _ in leaves):
+            leaves[0] = ("F", leaves[0][1] if leaves[0][0] in "Ff" else leaves[0][1] * (1 << r))
+        nodes = []
+        n = len(leaves)
+        fx = [k for k, (t, _) in enumerate(leaves) if t == "F"]     # every node has a fixed-point operand, hence is fixed-point
+        for _ in range(draw(st.integers(2, 4))):
+            op = draw(st.sampled_from(COMP_OPS))
+            if op == "neg":
+                i, j = draw(st.sampled_from(fx)), None
+            else:
+                i, j = draw(st.integers(0, n - 1)), draw(st.sampled_from(fx))
+                if draw(st.booleans()):
+                    i, j = j, i
+            nodes.append((op, i, j))
+            fx.append(n)
+            n += 1
+        case = {"part": "compose", "cfg": cfg, "leaves": leaves, "nodes": nodes}
+        msg, info = compose_case(case)
+        nt = bool(info.get("completed")) and len(info["ops"]) >= 2
+        stats.case(case if nt else None, nt, ["compose:" + "+".join(sorted(set(info["ops"])))] if nt else ["compose:incomplete"])
+        if msg:
+            raise core.Violation(case, msg, "compose")
+
+    v = core.drive(test, seed, n_examples)
+    if v is not None:
+        stats.violations.append({"case": v.case, "msg": v.msg, "key": v.key})
+    return stats
+
+
 def replay(case):
+    if case.get("part") == "compose":
+        case = dict(case, leaves=[tuple(x) for x in case["leaves"]], nodes=[tuple(x) for x in case["nodes"]])
+        return compose_case(case)[0]
     stmts = case["stmts"]
     args = []
     for s in stmts[:-1]:
@@ -244,6 +360,8 @@ def run(ctx):
         total.merge_json(core.run_shards("harness.checks.c14", "grid_shard", [dict(cells=cs[i::16], r=r, b=b, p=p) for i in range(16)]).to_json())
     n = 150 if ctx.tier == "quick" else 6000
     total.merge_json(core.run_shards("harness.checks.c14", "random_shard", [dict(seed=ctx.seed * 1000 + i, n_examples=n) for i in range(16)]).to_json())
+    nc = 300 if ctx.tier == "quick" else 6000
+    total.merge_json(core.run_shards("harness.checks.c14", "compose_shard", [dict(seed=ctx.seed * 1000 + 500 + i, n_examples=nc) for i in range(16)]).to_json())
     total.extra["grids_enumerated_completely"] = [list(g) for g in grids]
     ctx.stats = total
     replay_known(ctx, replay)
